@@ -100,7 +100,9 @@ func (dss *dataStoreSet) createDbUnlocked(index int) (ds *dataStore, valid bool)
 }
 
 func (dss *dataStoreSet) getDb(index int, create bool) (ds *dataStore, valid bool) {
+	simBeforeLock(&dss.mu, "dss.mu")
 	dss.mu.Lock()
+	defer simAfterUnlock(&dss.mu, "dss.mu")
 	defer dss.mu.Unlock()
 
 	ds, exists := dss.dbs[index]
@@ -119,14 +121,18 @@ func (dss *dataStoreSet) getDb(index int, create bool) (ds *dataStore, valid boo
 }
 
 func (dss *dataStoreSet) flushDb(index int) {
+	simBeforeLock(&dss.mu, "dss.mu")
 	dss.mu.Lock()
+	defer simAfterUnlock(&dss.mu, "dss.mu")
 	defer dss.mu.Unlock()
 
 	delete(dss.dbs, index)
 }
 
 func (dss *dataStoreSet) flushAll() {
+	simBeforeLock(&dss.mu, "dss.mu")
 	dss.mu.Lock()
+	defer simAfterUnlock(&dss.mu, "dss.mu")
 	defer dss.mu.Unlock()
 
 	dss.dbs = map[int]*dataStore{}
@@ -138,7 +144,9 @@ func (dss *dataStoreSet) getUser(userName string) (dsu *dataStoreUser, exists bo
 }
 
 func (dss *dataStoreSet) dbSize(index int) (size respInt, valid bool) {
+	simBeforeLock(&dss.mu, "dss.mu")
 	dss.mu.Lock()
+	defer simAfterUnlock(&dss.mu, "dss.mu")
 	defer dss.mu.Unlock()
 
 	ds, exists := dss.dbs[index]
